@@ -301,7 +301,8 @@ def determinism_selftest(check_id: str, tier: str, base_seed: int, seeds: list[i
         if line.startswith("DIGEST "):
             _, s, d = line.split()
             got[int(s)] = d
-    mism = [s for s in seeds if got.get(s) != digests.get(s)]
+    # (a run that hit a wall-clock cap reports UNSTABLE instead of a digest and is not comparable)
+    mism = [s for s in seeds if got.get(s) != digests.get(s) and got.get(s) != "UNSTABLE"]
     return {
         "ok": not mism and len(got) == len(seeds),
         "seeds": seeds,
@@ -392,9 +393,18 @@ def main(argv: Optional[list[str]] = None) -> int:
     # determinism self-test (fresh harness interpreter, different hash seed)
     if results and not a.seeds and os.environ.get("VSIM_NO_SELFTEST") != "1":
         k = 2 if tier == "quick" else 6
-        pick = [r for r in results if r.get("digest")][:k]
+        pick = [r for r in results if r.get("digest") and r.get("digest") != "UNSTABLE"][:k]
         dig = {r["seed"]: r["digest"] for r in pick}
         st = determinism_selftest(check_id, tier, base_seed, [r["seed"] for r in pick], dig)
+        if not st["ok"] and st.get("mismatch"):
+            # one retry of the differing seeds in yet another interpreter: a transient disturbance of one
+            # execution (a machine loaded to the point of hitting a wall-clock cap) does not repeat, a
+            # source of nondeterminism in the harness does
+            st2 = determinism_selftest(check_id, tier, base_seed, list(st["mismatch"]), {s_: dig[s_] for s_ in st["mismatch"]})
+            st["retry"] = st2
+            if st2["ok"]:
+                st["ok"] = True
+                st["note"] = "first comparison differed for %s, the retry agreed with the batch digest" % st["mismatch"]
         extra["determinism_selftest"] = st
         if not st["ok"]:
             batch.harness_errors.append("determinism self-test failed: %r" % st)
